@@ -67,3 +67,70 @@ Theorem header_tlvs_walk x h : wf_bytes x = true -> p2 x = Ok h ->
   exists items, Walk (spec_tlv_section h) items
                 /\ collect (h_tlv_bytes h) = Some (map (item_abs (lenN (h_tlv_bytes h))) items).
 Proof. intros Hwf H. destruct (views_match_spec x h Hwf H) as [_ E]. rewrite <- E. apply collect_walk. Qed.
+
+(* ---- two arms of parse_header that no input reaches -------------------------------------------
+   src/v1/mod.rs has `iterator.next().ok_or(MissingPrefix)` on the first item of a splitn and a
+   `None => MissingProtocol` arm for "no second field"; Model/V1.v mirrors both.  tools/coverage.py
+   reports the second as never executed and the mutation analysis cannot kill mutants of either.
+   Here is why: whatever those two arms return, the function is the same. *)
+Definition parse_header_with (d1 d2 : result header1 err1) (h : bytes) : result header1 err1 :=
+  if isnil h then Err MissingPrefix
+  else if MAX_LENGTH <? lenN h then Err HeaderTooLong
+  else
+    let term := terminated h in
+    match splitn PARTS h with
+    | [] => d1
+    | prefix :: rest =>
+      if negb term && negb (isnil prefix) && is_prefix prefix PROXY && is_suffix prefix h then Err Partial1
+      else if negb (beq prefix PROXY) then Err InvalidPrefix
+      else match rest with
+      | [] => d2
+      | proto :: fields =>
+        if beq proto TCP4 then
+          match parse_addresses1 parse_ipv4 term fields with
+          | Err e => Err e
+          | Ok (sa, da, sp, dp) => finish1 h term fields (Tcp4 sa da sp dp)
+          end
+        else if beq proto TCP6 then
+          match parse_addresses1 parse_ipv6 term fields with
+          | Err e => Err e
+          | Ok (sa, da, sp, dp) => finish1 h term fields (Tcp6 sa da sp dp)
+          end
+        else if beq proto UNKNOWN then
+          if is_suffix CRLF h then Ok {| text := h; addr := Unknown |}
+          else if term then Err InvalidSuffix else Err MissingNewLine
+        else if isnil proto && isnil fields then Err MissingProtocol
+        else if negb term && negb (isnil proto) && is_suffix proto h
+                && (is_prefix proto TCP4 || is_prefix proto UNKNOWN) then Err Partial1
+        else Err InvalidProtocol
+      end
+    end.
+
+Lemma splitn_single n l a : splitn (S (S n)) l = [a] -> a = l /\ V1Text.no_sep l = true.
+Proof.
+  rewrite splitn_SS. destruct (cut l) as [b [r|]] eqn:E.
+  - intros H. pose proof (splitn_nonnil n r) as Hn.
+    destruct (splitn (S n) r); [cbn in Hn; discriminate Hn|discriminate H].
+  - intros H. injection H as ->. now apply cut_none.
+Qed.
+
+Theorem dead_arms d1 d2 h : parse_header_with d1 d2 h = parse_header h.
+Proof.
+  unfold parse_header_with, parse_header.
+  destruct (isnil h) eqn:Hnil; [reflexivity|].
+  destruct (MAX_LENGTH <? lenN h); [reflexivity|].
+  destruct (splitn PARTS h) as [|prefix rest] eqn:E.
+  - pose proof (splitn_nonnil 6 h) as Hn. change (S 6) with PARTS in Hn. rewrite E in Hn. discriminate.
+  - destruct rest as [|proto fields]; [|reflexivity].
+    apply (splitn_single 5 h prefix) in E as [-> Hsep].
+    assert (Ht : terminated h = false).
+    { destruct (terminated h) eqn:T; [|reflexivity].
+      apply terminated_true in T as (a & b & t & -> & _).
+      rewrite no_sep_app in Hsep. apply andb_true_iff in Hsep as [_ Hsep]. cbn in Hsep. discriminate. }
+    rewrite Ht, Hnil. cbn [negb andb].
+    assert (Hs : is_suffix h h = true) by (apply is_suffix_app; now exists []).
+    rewrite Hs, andb_true_r.
+    destruct (is_prefix h PROXY) eqn:Hp; [reflexivity|].
+    destruct (beq h PROXY) eqn:Hb; [|reflexivity].
+    apply beq_eq in Hb. subst h. cbn in Hp. discriminate.
+Qed.
